@@ -12,22 +12,11 @@
 pub mod cap {
     //! Capacities. Under Kani they are deliberately tiny: the cost of a harness is dominated by copying the VM's state
     //! (measured: `Runtime::default()` alone is 563 k symex steps at VEC=8 and 188 k at VEC=4), and every capacity is part
-    //! of the stated bound of every harness. Natively they are large enough for the repository's test-suite.
+    //! of the stated bound of every harness. The Kani values come from a generated file so that a harness can ask for a
+    //! different set (`//@ caps: VEC=6`); defaults: STR 8, VEC 4, MAP 4, DEQ 8, BVEC 2, ARCSTR 32.
+    //! Natively they are large enough for the repository's test-suite.
     #[cfg(kani)]
-    pub const STR: usize = 8;
-    #[cfg(kani)]
-    pub const VEC: usize = 4;
-    #[cfg(kani)]
-    pub const MAP: usize = 4;
-    /// heap-indirect AST vectors (statement lists of IF, argument / target lists)
-    #[cfg(kani)]
-    pub const BVEC: usize = 2;
-    #[cfg(not(kani))]
-    pub const BVEC: usize = 128;
-    #[cfg(kani)]
-    pub const DEQ: usize = 8;
-    #[cfg(kani)]
-    pub const ARCSTR: usize = 32;
+    include!(concat!(env!("CARGO_MANIFEST_DIR"), "/src/caps_gen.rs"));
     #[cfg(not(kani))]
     pub const STR: usize = 272;
     #[cfg(not(kani))]
@@ -36,6 +25,8 @@ pub mod cap {
     pub const MAP: usize = 128;
     #[cfg(not(kani))]
     pub const DEQ: usize = 1100;
+    #[cfg(not(kani))]
+    pub const BVEC: usize = 128;
     #[cfg(not(kani))]
     pub const ARCSTR: usize = 272;
 }
